@@ -389,7 +389,7 @@ Proof. vm_compute. reflexivity. Qed.
    Table.sum maps 'whole' / 'sample' / 'observation' to the scipy axis None / 0 / 1 (r_sum3 selects
    by the same three cases), Table._axis_to_num, Table._invert_axis. *)
 From BiomV Require Gen.Prelude.
-From BiomV Require Import Gen.HelpersGen Proofs.GenBridgeHelpersProofs.
+From BiomV Require Import Gen.HelpersGen Proofs.GenBridgeAxisProofs.
 Theorem sum_axis_is_source : forall a, sum_axis (axis3_str a) = Gen.Prelude.Ok (scipy_axis a).
 Proof. exact sum_axis_bridge. Qed.
 Print Assumptions sum_axis_is_source.
